@@ -37,7 +37,7 @@ Lemma in_2_4 d : 2 <= d <= 4 -> In d [2; 3; 4].
 Proof. intros H. simpl. lia. Qed.
 
 Lemma kind_in kd : kd <> MChr -> In kd [MBin; MUna].
-Proof. destruct kd; simpl; intros H; auto. contradiction H; reflexivity. Qed.
+Proof. destruct kd; simpl; intros H; auto. Qed.
 
 (* ------------------------------------------------------------------ the formal square roots *)
 Lemma sqrt_table : forall n, 1 <= n <= 7 -> keqb (kmul (sqrtK n) (sqrtK n)) (kofZ n) = true.
@@ -59,32 +59,32 @@ Definition ds28 : list Z := [2; 3; 4; 5; 6; 7; 8].
 
 Lemma img1_all :
   forallb (fun kd => forallb (fun d => forallb (image_ok kd 1 d) (words_upto letters1 3)) ds28) [MBin; MUna] = true.
-Proof. vm_compute. reflexivity. Qed.
+Proof. vm_cast_no_check (eq_refl true). Qed.
 
 Lemma img2_all :
   forallb (fun kd => forallb (fun d => forallb (image_ok kd 2 d) (words_upto letters2 2)) [2; 3; 4]) [MBin; MUna] = true.
-Proof. vm_compute. reflexivity. Qed.
+Proof. vm_cast_no_check (eq_refl true). Qed.
 
 Lemma closed1_all :
   forallb (fun kd => forallb (fun d => forallb (closed_ok kd 1 d) (words_upto letters1 2)) ds28) [MBin; MUna] = true.
-Proof. vm_compute. reflexivity. Qed.
+Proof. vm_cast_no_check (eq_refl true). Qed.
 
 Lemma adj1_all :
   forallb (fun kd => forallb (fun d => forallb (adjoint_ok kd d) (words_upto letters1 3)) ds28) [MBin; MUna] = true.
-Proof. vm_compute. reflexivity. Qed.
+Proof. vm_cast_no_check (eq_refl true). Qed.
 
 Lemma adj2_all :
   forallb (fun kd => forallb (fun d => forallb (adjoint_ok kd d) (words_upto letters2 2)) [2; 3; 4]) [MBin; MUna] = true.
-Proof. vm_compute. reflexivity. Qed.
+Proof. vm_cast_no_check (eq_refl true). Qed.
 
 Lemma chr_all :
   forallb (fun w => image_ok MChr 2 2 w && closed_ok MChr 2 2 w && adjoint_ok MChr 2 w) (words_upto letters2 3) = true.
-Proof. vm_compute. reflexivity. Qed.
+Proof. vm_cast_no_check (eq_refl true). Qed.
 
 Lemma matprod_all :
   forallb (fun d => forallb (matprod_ok d)
      (map (map snd) (words_upto letters1 3))) ds28 = true.
-Proof. vm_compute. reflexivity. Qed.
+Proof. vm_cast_no_check (eq_refl true). Qed.
 
 (* ------------------------------------------------------------------ unfolding the boolean checkers *)
 Lemma image_ok_elim kd modes d w : image_ok kd modes d w = true ->
@@ -202,7 +202,7 @@ Proof.
   pose proof matprod_all as A. rewrite forallb_forall in A. specialize (A d (in_2_8 d Hd)).
   rewrite forallb_forall in A.
   assert (I : In signs (map (map snd) (words_upto letters1 3))).
-  { destruct signs as [|a [|b [|c [|e r]]]]; [| | |simpl in Hl; lia];
+  { destruct signs as [|a [|b [|c [|e r]]]]; try (exfalso; simpl in Hl; lia);
       repeat match goal with x : bool |- _ => destruct x end; vm_compute; tauto. }
   specialize (A signs I). unfold matprod_ok in A.
   rewrite forallb_forall in A. specialize (A m (in_zrange _ _ Hm)).
